@@ -2,6 +2,9 @@
 import ShootVerif.Props.C01
 import ShootVerif.Props.C02
 import ShootVerif.Props.C03
+import ShootVerif.Props.C04
 import ShootVerif.Props.C11
+import ShootVerif.Props.C12
 import ShootVerif.Props.C13
+import ShootVerif.Props.C14
 import ShootVerif.Props.C20
